@@ -120,21 +120,42 @@ func Index(s, sub string) int {
 	return -1
 }
 
-// ParseUint models strconv.ParseUint for base 10 and 16 and bitSize 64
-// (no underscores, no base prefix), returning the same value and error class.
+// ParseUint models strconv.ParseUint for bitSize 64: bases 2..36 and base 0
+// (prefix-selected: 0x hex, 0o or a leading 0 octal, 0b binary, else decimal),
+// returning the same value and error class. Underscore separators (base 0 only)
+// are reported as syntax errors here; the lexer never passes them.
 func ParseUint(s string, base int, bitSize int) (uint64, error) {
 	if s == "" {
 		return 0, &strconv.NumError{Func: "ParseUint", Num: s, Err: strconv.ErrSyntax}
 	}
-	if (base != 10 && base != 16) || bitSize != 64 {
-		panic("models.ParseUint: base/bitSize not modelled")
+	if bitSize != 64 && bitSize != 0 {
+		panic("models.ParseUint: bitSize not modelled")
 	}
-	var cutoff uint64
-	if base == 10 {
-		cutoff = (1<<64-1)/10 + 1
-	} else {
-		cutoff = (1<<64-1)/16 + 1
+	s0 := s
+	switch {
+	case 2 <= base && base <= 36:
+	case base == 0:
+		base = 10
+		if s[0] == '0' {
+			switch {
+			case len(s) >= 3 && (s[1] == 'x' || s[1] == 'X'):
+				base = 16
+				s = s[2:]
+			case len(s) >= 3 && (s[1] == 'o' || s[1] == 'O'):
+				base = 8
+				s = s[2:]
+			case len(s) >= 3 && (s[1] == 'b' || s[1] == 'B'):
+				base = 2
+				s = s[2:]
+			default:
+				base = 8
+				s = s[1:]
+			}
+		}
+	default:
+		return 0, &strconv.NumError{Func: "ParseUint", Num: s0, Err: errors.New("invalid base")}
 	}
+	cutoff := (1<<64-1)/uint64(base) + 1
 	var n uint64
 	for i := 0; i < len(s); i++ {
 		c := s[i]
@@ -147,22 +168,27 @@ func ParseUint(s string, base int, bitSize int) (uint64, error) {
 		case 'A' <= c && c <= 'Z':
 			d = c - 'A' + 10
 		default:
-			return 0, &strconv.NumError{Func: "ParseUint", Num: s, Err: strconv.ErrSyntax}
+			return 0, &strconv.NumError{Func: "ParseUint", Num: s0, Err: strconv.ErrSyntax}
 		}
 		if int(d) >= base {
-			return 0, &strconv.NumError{Func: "ParseUint", Num: s, Err: strconv.ErrSyntax}
+			return 0, &strconv.NumError{Func: "ParseUint", Num: s0, Err: strconv.ErrSyntax}
 		}
 		if n >= cutoff {
-			return 1<<64 - 1, &strconv.NumError{Func: "ParseUint", Num: s, Err: strconv.ErrRange}
+			return 1<<64 - 1, &strconv.NumError{Func: "ParseUint", Num: s0, Err: strconv.ErrRange}
 		}
-		if base == 10 {
-			n *= 10
-		} else {
+		switch base {
+		case 16:
 			n <<= 4
+		case 8:
+			n <<= 3
+		case 2:
+			n <<= 1
+		default:
+			n *= uint64(base)
 		}
 		n1 := n + uint64(d)
 		if n1 < n {
-			return 1<<64 - 1, &strconv.NumError{Func: "ParseUint", Num: s, Err: strconv.ErrRange}
+			return 1<<64 - 1, &strconv.NumError{Func: "ParseUint", Num: s0, Err: strconv.ErrRange}
 		}
 		n = n1
 	}
